@@ -217,6 +217,11 @@ func (w *Worker) denied(fn *ssa.Function) bool {
 		d = false
 	} else if pkg := fn.Package(); pkg != nil && fn.Synthetic == "" {
 		path := pkg.Pkg.Path()
+		if path == "net/url" {
+			// plain string processing: runs from its SSA (on concrete text it is simply interpreted)
+			w.denyCache[fn] = false
+			return false
+		}
 		for _, p := range denyPrefixes {
 			if path == p || strings.HasPrefix(path, p+"/") {
 				d = true
